@@ -31,7 +31,8 @@ PROP = "C12"
 MODULES = ["Curtsies.Properties.C12"]
 RULE = ("scripts = trees of contexts (Input with every sigint_event x disable_terminal_start_stop, FullscreenWindow(hide_cursor), "
         "CursorAwareWindow(hide_cursor, keep_last_line), Cbreak, Nonblocking, Termmode(attrs)), nested up to depth 3 and repeated, "
-        "bodies of <= 4 operations (requests reading a paste whose top-up read finds nothing / an empty read at EOF; renders on terminals resized to 0x0 / 0 rows / 0 columns / normal; requests returning without/with a read, raising after the read, interrupted by a real SIGINT "
+        "one object used in the main thread and in a worker thread (both orders; oracle only), bodies of <= 4 operations (a paste that "
+        "raises inside the paste loop; requests reading a paste whose top-up read finds nothing / an empty read at EOF; renders on terminals resized to 0x0 / 0 rows / 0 columns / normal; requests returning without/with a read, raising after the read, interrupted by a real SIGINT "
         "while blocked in select; renders; trigger creation incl. threadsafe) truncated by an exception at any position; initial "
         "tty attributes (ECHO/ICANON/ISIG/IEXTEN/IXON/ICRNL/OPOST toggles, VMIN/VTIME/VSTOP/VSTART), initial O_NONBLOCK/O_APPEND, "
         "initial SIGINT handler (default_int_handler, SIG_DFL, SIG_IGN, user function), re-use of the same object after an environment "
@@ -249,8 +250,10 @@ def gen_body(r, depth, inp_se, hstate, main, budget, canon_risk=False, has_win=F
                 toks.append("q4")
             elif k < 0.7:
                 toks.append("q5")
-            elif k < 0.85:
+            elif k < 0.8:
                 return toks + ["q2", "#raised"]
+            elif k < 0.85:
+                return toks + ["q6", "#raised"]
             elif main and inp_se:
                 toks.append("q3")                       # the Input's own handler: comes back as an event
             elif main and hstate == "d":
@@ -362,6 +365,21 @@ def corpus_cases():
                 out.append(dict(base, main=1, sig0="d", toks=[top, q] + tail + [")"]))
         out.append(dict(base, main=0, sig0="d", toks=[top, "q4", "q5", ")"]))
         out.append(dict(dict(base, nonblock0=1), main=1, sig0="d", toks=[top, "q4", ")"]))
+    # a paste that raises inside the paste loop (seeded C12-r7m1: a hand-made Nonblocking enter/exit skipped on that path)
+    for top in ("(I00", "(I01", "(I10", "(I11"):
+        out.append(dict(base, main=1, sig0="d", toks=[top, "q6", ")"]))
+        out.append(dict(base, main=1, sig0="d", toks=[top, "q1", "q6", ")"]))
+        out.append(dict(base, main=0, sig0="d", toks=[top, "q6", ")"]))
+        out.append(dict(base, main=1, sig0="d", toks=["(N", top, "q6", ")", ")"]))
+    # ONE context-manager object used in the main thread and then in a worker thread, and the other way round (seeded
+    # C12-r7m2: __exit__ keyed on stale wake-up fds instead of is_main_thread()); the full state is judged after each exit.
+    # (oracle only: the model runs a whole script in one thread)
+    for top in ("(I00", "(I10", "(I11", "(B", "(N", "(M0", "(C10"):
+        for env in ([], ["et0"]):
+            out.append(dict(base, main=1, sig0="d", toks=[top, ")"] + env + ["(~=0", ")"]))
+            out.append(dict(base, main=1, sig0="d", toks=["(~" + top[1:], ")"] + env + ["(=0", ")"]))
+            out.append(dict(base, main=1, sig0="d", toks=[top, ")", "(~=0", ")"] + env + ["(=0", ")"]))
+        out.append(dict(base, main=1, sig0="d", toks=[top, ")", "(~=0", "!", ")"]))
     # renders (0..2) on terminals of every size, in both window classes, both hide_cursor values, left normally / by exception:
     # the cursor must be visible after leaving (seeded C12-r4m1: an early return on a 0-size terminal skips normal_cursor)
     for top in ("(F0", "(F1", "(C00", "(C10", "(C01", "(C11"):
@@ -545,12 +563,12 @@ class Runner:
     def snapshot(self):
         cur, alt, mw = self.screen_state()
         sig = signal.getsignal(signal.SIGINT)
-        if self.main:
+        if threading.current_thread() is threading.main_thread():
             wake = signal.set_wakeup_fd(-1)
             if wake != -1:
                 signal.set_wakeup_fd(wake, warn_on_full_buffer=False)
         else:
-            wake = None
+            wake = None            # only the main thread can probe the wake-up fd
         snap = dict(tty=termios.tcgetattr(self.slave), fl=fcntl.fcntl(self.slave, fcntl.F_GETFL), sig=sig, wake=wake,
                     fds=open_fds() - self.baseline, cur=cur, alt=alt, main_writes=mw, npipes=len(self.shim.pipes), nentries=len(self.entries))
         self.snaps.append(snap)
@@ -650,6 +668,11 @@ class Runner:
             got = inp.send(0.5)
             if not isinstance(got, cevents.PasteEvent):
                 self.asserts.append("q4: a burst above the paste threshold came back as %r, not a paste event" % (got,))
+        elif tok == "q6":
+            # a paste burst that ENDS inside a multi-byte character: find_key raises in the paste loop (a known finding of
+            # C08) - C12 judges only that the stream is blocking again after the raising request and after leaving
+            os.write(self.master, b"abcdefghijkl\xe2\x82")
+            inp.send(0.5)
         elif tok == "q5":
             # the stream is readable but the read returns nothing (end of file): the Input's stream is, for this one request,
             # the read end of a pipe whose writer is closed; afterwards that descriptor must not be left non-blocking either
@@ -691,6 +714,27 @@ class Runner:
                 return i + 1
             if tok == "!":
                 raise Boom()
+            if tok.startswith("(~"):
+                # this whole context block (enter, body, exit) runs in a WORKER thread; the script goes on in this one
+                j = self.skip(toks, i + 1)
+                sub = ["(" + tok[2:]] + toks[i + 1:j]
+                box = []
+
+                def work():
+                    try:
+                        self.exec_level(sub, 0, stack)
+                    except BaseException as e:  # noqa: BLE001
+                        box.append(e)
+                th = threading.Thread(target=work, daemon=True)
+                th.start()
+                th.join(15)
+                if th.is_alive():
+                    self.problem = "a context block in a worker thread did not finish within 15 s"
+                    raise Boom()
+                if box:
+                    raise box[0]
+                i = j
+                continue
             if tok.startswith("("):
                 cm, tok = self.make(tok)
                 j = self.skip(toks, i + 1)
@@ -902,7 +946,7 @@ def oracle(c):
                 items.append(("file status flags %#o -> %#o" % (a["fl"], b["fl"]), None))
             if a["sig"] != b["sig"]:
                 items.append(("SIGINT handler %r -> %r" % (a["sig"], b["sig"]), None))
-            if a["wake"] != b["wake"]:
+            if a["wake"] is not None and b["wake"] is not None and a["wake"] != b["wake"]:   # None: observed in a worker thread
                 items.append(("signal wake-up fd %r -> %r" % (a["wake"], b["wake"]), None))
             if a["fds"] != b["fds"]:
                 leaked, closed = b["fds"] - a["fds"], a["fds"] - b["fds"]
@@ -941,6 +985,8 @@ def oracle(c):
                 out.append(("after request %s the stream's O_NONBLOCK bit changed (%#o -> %#o)" % (tok, a["fl"], b["fl"]), None))
     for msg in r.asserts:
         out.append((msg, None))
+    if r.main and r.snaps and r.snaps[0]["wake"] is not None and r.final_wake != r.snaps[0]["wake"]:
+        out.append(("signal wake-up fd after the whole script %r, before it %r" % (r.final_wake, r.snaps[0]["wake"]), None))
     if not r.main and r.final_wake != -1:
         out.append(("wake-up fd set after a script run in a non-main thread", None))
     return out
@@ -968,6 +1014,8 @@ def run_cases(ctx, cases, tie=True):
     Runner(dict(main=1, sig0="d", wake0=0, nonblock0=0, append0=0, attrs={}, given=[{}, {}], toks=["(F1", "r", ")", "(C10", ")", "(I10", "q1", ")"])).run()
     for c in cases:
         c["_runner"] = Runner(c).run()
+    all_cases = cases
+    cases = [c for c in all_cases if not any(t.startswith("(~") for t in c["toks"])]   # the model runs one thread per script
     if tie:
         import lib
         lines = [line(c) for c in cases]
@@ -986,7 +1034,7 @@ def run_cases(ctx, cases, tie=True):
                     t["disagreements"] += 1
                     if len(ctx.disagreements) < 20:
                         ctx.disagreements.append(("C12/ctxsim", strip(c), d, ln + " -> " + rep))
-    for c in cases:
+    for c in all_cases:
         ctx.count(strip(c), nontrivial=any(t.startswith("(") for t in c["toks"]), tag=c.get("tag", "random"))
         for t in c["toks"]:
             ctx.dist["tok:" + (t[:2] if t.startswith("(") else t)] += 1
